@@ -236,7 +236,55 @@ fn mutate(entry: &str, base: Vec<u8>, r: &mut SplitMix) -> Vec<u8> {
                     v.extend_from_slice(close);
                 }
             }
-            if r.chance(1, 2) && !b.is_empty() {
+            if entry != "http_response" && entry.starts_with("ws") && r.chance(1, 3) {
+                // the bomb as an extra member of a well-formed message, AFTER a string that a hand-written
+                // depth pre-scanner may mis-lex (escaped backslash before the closing quote, escaped quotes,
+                // brackets inside strings, unicode escapes): everything after it would then be "inside a string"
+                let tricky: [&str; 10] = ["\\\\", "a\\\\", "\\\\\\\\", "\\\"", "\\\"\\\\", "[[[[{{{{", "\\u005c", "\\u0022\\\\", "]]]]\\\\", "\\\\\\\""];
+                let t = *r.pick(&tricky);
+                let mut m = Vec::new();
+                match r.below(3) {
+                    0 => {
+                        // a 20-character info hash whose last character is a backslash
+                        m.extend_from_slice(b"{\"action\":\"scrape\",\"info_hash\":\"aaaaaaaaaaaaaaaaaaa\\\\\",\"x\":");
+                    }
+                    1 => {
+                        m.extend_from_slice(b"{\"action\":\"scrape\",\"info_hash\":\"aaaaaaaaaaaaaaaaaaaa\",\"k\":\"");
+                        m.extend_from_slice(t.as_bytes());
+                        m.extend_from_slice(b"\",\"x\":");
+                    }
+                    _ => {
+                        m.extend_from_slice(b"{\"k\":\"");
+                        m.extend_from_slice(t.as_bytes());
+                        m.extend_from_slice(b"\",\"action\":\"announce\",\"x\":");
+                    }
+                }
+                let room = cap.saturating_sub(m.len() + 2);
+                if v.len() > room {
+                    // keep it balanced where possible: cut the same number of openers and closers
+                    let opened_now = opened.min(room / (open.len() + close.len()).max(1));
+                    v.clear();
+                    for _ in 0..opened_now {
+                        v.extend_from_slice(open);
+                    }
+                    v.extend_from_slice(b"0");
+                    for _ in 0..opened_now {
+                        v.extend_from_slice(close);
+                    }
+                }
+                m.extend_from_slice(&v);
+                m.extend_from_slice(b"}");
+                b = m;
+            } else if entry == "http_response" && r.chance(1, 3) {
+                // bencode: the bomb after a byte string that contains list / dict / end markers
+                let mut m = Vec::new();
+                m.extend_from_slice(b"d1:k8:lldd:eee1:x");
+                let room = cap.saturating_sub(m.len() + 1);
+                v.truncate(room);
+                m.extend_from_slice(&v);
+                m.extend_from_slice(b"e");
+                b = m;
+            } else if r.chance(1, 2) && !b.is_empty() {
                 // embed inside an otherwise valid message
                 let pos = r.usize(b.len());
                 let tail = b.split_off(pos);
